@@ -65,3 +65,41 @@ package req
 //@   assert before writeBodyStream: rwHdr == 0
 //@   unreachable-return 5 :: hasBody is set whenever the body is non-empty, so the "non-zero body for non-POST request" return is dead
 
+// ---- C01 / C03: reading a buffered request body ----
+// A fixed-length body above the configured limit is refused before a byte is taken; otherwise exactly
+// Content-Length bytes are peeked and then skipped; a chunked body goes through ext.ReadBody with the caller's
+// limit and the trailer section is read only after it succeeded.
+//@ ghost var crPeeked bool
+//@ ghost var crBody int
+//@ func ContinueReadBody(req, r, maxBodySize, preParseMultipartForm) err
+//@   props C01, C03
+//@   abstract
+//@   noinline
+//@   panics
+//@   modifies crPeeked, crBody
+//@   ghostset-at-entry crPeeked = false
+//@   ghostset-at-entry crBody = 0
+//@   assert before Peek: arg1 == contentLength && contentLength > 0 && (maxBodySize <= 0 || contentLength <= maxBodySize)
+//@   ghostset after Peek: crPeeked = (result1 == nil)
+//@   assert before Skip: crPeeked && arg1 == contentLength
+//@   assert before ParseMultipartForm: contentLength > 0 && (maxBodySize <= 0 || contentLength <= maxBodySize) && arg2 == contentLength
+//@   assert before ReadBody: contentLength <= 0 && contentLength != -2 && arg1 == contentLength && arg2 == maxBodySize && crBody == 0
+//@   ghostset after ReadBody: crBody = ite(result1 == nil, 1, -1)
+//@   assert before ReadTrailer: crBody == 1
+
+// ---- C14: setting up a streamed request body ----
+// A read-until-close length never reaches the prefetch (requests have no such bodies); the prefetch gets the
+// header's length and the caller's limit; the stream object is built only after the prefetch ran, over the same
+// reader, with the same length.
+//@ ghost var csPrefetched bool
+//@ func ContinueReadBodyStream(req, zr, maxBodySize, preParseMultipartForm) err
+//@   props C14
+//@   abstract
+//@   noinline
+//@   panics
+//@   modifies csPrefetched
+//@   ghostset-at-entry csPrefetched = false
+//@   assert before ReadBodyWithStreaming: contentLength != -2 && arg0 == zr && arg1 == contentLength && arg2 == maxBodySize && !csPrefetched
+//@   ghostset after ReadBodyWithStreaming: csPrefetched = true
+//@   assert before AcquireBodyStream: csPrefetched && arg1 == zr && arg3 == contentLength
+
